@@ -146,4 +146,37 @@ func (*balanceSingleReporter).Flush returns (err)
   modifies ghost(bufSticky, sinkFailed, sinkPend, prLen, prSink, prArg, prArgs)
   ensures @sink [C17] BufStep(r.output)
   ensures @reports-loss [C17] err == nil ==> !bufSticky[r.output] && sinkPend[bufSink[r.output]] == 0
+
+// ---------------------------------------------------------------------------------------------
+// the balance command
+// ---------------------------------------------------------------------------------------------
+func getReporter returns (r)
+  props C03 C08 C17
+  requires @tree TreeInv() && DBIs(db)
+  modifies ghost(bufSink, bufSticky, tnodes, tdepth, tmax, tmapOf)
+  ensures @reporter RepInv(r) && fresh(RepBuf(r)) && RepBookBelow(r, alloc())
+  ensures @sink [C17] bufSink == store(old(bufSink), RepBuf(r), payload(config.Output)) && bufSticky == store(old(bufSticky), RepBuf(r), false)
+
+// the callback Balance hands to WithResolvedDatabase
+func Balance$1 returns (err)
+  props C03 C08 C09 C10 C17
+  refines utils.ResolvedCallback
+  modifies *
+  captured bc.ReporterConfig.Output != nil && !typeis(bc.ReporterConfig.Output, "*bufio.Writer") && !typeis(bc.ReporterConfig.Output, "*encoding/csv.Writer")
+  defines CbOut(self) == payload(bc.ReporterConfig.Output) && CbLog(self) == payload(logStream) && CbCC(self) == bc.ParserConfig.CommentChar
+
+func Balance returns (err)
+  props C03 C08 C09 C10 C17
+  requires @sink bc.ReporterConfig.Output != nil && !typeis(bc.ReporterConfig.Output, "*bufio.Writer") && !typeis(bc.ReporterConfig.Output, "*encoding/csv.Writer") && TreeInv()
+  modifies *
+  modifies ghost(cbLen, cbErr, cbNode, cbStop, cbRet, cbLineNo, cbLine, cbHeader, cbElems, cbNElems, scRd, scPos, privLo, evOf, accKey, accP, accN, accH, bufSink, bufSticky, sinkFailed, sinkPend, prLen, prSink, prArg, prArgs, tnodes, tdepth, tmax, tmapOf)
+  let out := payload(bc.ReporterConfig.Output)
+  let lrd := payload(logStream)
+  let drd := payload(dbStream)
+  let cc := bc.ParserConfig.CommentChar
+  ensures @book-unreadable [C10] err == nil ==> !RdFailed(drd)
+  ensures @book-malformed [C09] err == nil ==> (forall i int :: {RdLine(drd, i)} 0 <= i && i < RdN(drd) ==> !Malformed(drd, i, cc))
+  ensures @log-unreadable [C10] err == nil ==> !RdFailed(lrd)
+  ensures @log-malformed [C09] err == nil ==> (forall i int :: {RdLine(lrd, i)} 0 <= i && i < RdN(lrd) ==> !Malformed(lrd, i, cc))
+  ensures @reports-loss [C17] err == nil ==> (sinkFailed[out] ==> old(sinkFailed[out])) && sinkPend[out] == 0
 @*/
